@@ -29,146 +29,109 @@ theorem qual_attachItem (i : Item) : (attachItem T post i).qual T = i.qual T := 
 theorem lastOf_attachItem (i : Item) : lastOf T (attachItem T post i) = lastOf T i := by
   cases i <;> simp [attachItem, lastOf]
 
-theorem lastOf_setPre (ps : List Pragma) (i : Item) : lastOf T (i.setPre ps) = lastOf T i := by
-  cases i <;> simp [Item.setPre, lastOf]
+theorem lastOf_q (i : Item) : (lastOf T i).q = i.qual T := by
+  cases i <;> simp [lastOf, Item.qual]
 
-/-- attaching `pend` to an empty `pragma` slot of a qualifying node is undone by the detacher -/
-theorem detachItem_setPre (i : Item) (pend : List Pragma) (hq : i.qual T = true) (hpre : i.preNE = false)
-    (hne : pend.isEmpty = false) :
-    detachItem T post (i.setPre pend) = pend.map .pragma ++ detachItem T post i := by
+/-- putting `pend` in front of the `pragma` slot of a qualifying node is undone by the detacher, whatever the slot held -/
+theorem detachItem_prependPre (i : Item) (pend : List Pragma) (hq : i.qual T = true) (hne : pend.isEmpty = false) :
+    detachItem T post (i.prependPre pend) = pend.map .pragma ++ detachItem T post i := by
   cases i with
   | pragma p => simp [Item.qual] at hq
   | region => simp [Item.qual] at hq
   | node id k hp df pre po body =>
     have hq' : k ∈ T := by simpa [Item.qual] using hq
-    simp only [Item.preNE, Bool.not_eq_false', List.isEmpty_iff] at hpre
-    subst hpre
     have hne' : pend ≠ [] := by simpa using hne
-    simp [Item.setPre, detachItem, hq', hne']
+    cases pre with
+    | nil => simp [Item.prependPre, detachItem, hq', hne']
+    | cons p ps => simp [Item.prependPre, detachItem, hq', hne']
 
-/-- attaching `pend` to an empty `pragma_post` slot of a qualifying node that has the attribute is undone -/
-theorem detachItem_setPost (l : Item) (pend : List Pragma) (hl : lastOf T l = ⟨true, true, false⟩)
+/-- appending `pend` to the `pragma_post` slot of a qualifying node that has the attribute is undone by the detacher -/
+theorem detachItem_appendPost (l : Item) (pend : List Pragma) (hq : (lastOf T l).q = true) (hhp : (lastOf T l).hp = true)
     (hne : pend.isEmpty = false) :
-    detachItem T true (l.setPost pend) = detachItem T true l ++ pend.map .pragma := by
+    detachItem T true (l.appendPost pend) = detachItem T true l ++ pend.map .pragma := by
   cases l with
-  | pragma p => simp [lastOf] at hl
-  | region => simp [lastOf] at hl
+  | pragma p => simp [lastOf] at hq
+  | region => simp [lastOf] at hq
   | node id k hp df pre po body =>
-    simp only [lastOf, Last.mk.injEq, Bool.not_eq_false', List.isEmpty_iff] at hl
-    obtain ⟨hq, hhp, hpo⟩ := hl
-    subst hhp; subst hpo
+    simp only [lastOf] at hq hhp
+    subst hhp
     have hq' : k ∈ T := by simpa using hq
     have hne' : pend ≠ [] := by simpa using hne
-    simp [Item.setPost, detachItem, hq', hne']
+    cases po with
+    | nil => simp [Item.appendPost, detachItem, hq', hne']
+    | cons p ps => simp [Item.appendPost, detachItem, hq', hne']
 
-
-theorem lastOf_q (i : Item) : (lastOf T i).q = i.qual T := by
-  cases i <;> simp [lastOf, Item.qual]
-
-theorem preNE_attachItem (i : Item) : (attachItem T post i).preNE = i.preNE := by
-  cases i <;> simp [attachItem, Item.preNE]
-
-theorem last_eta (l : Last) (a b c : Bool) (h1 : l.q = a) (h2 : l.hp = b) (h3 : l.pne = c) : l = ⟨a, b, c⟩ := by
-  cases l; simp_all
-
-/-- the statement proved for `attachGo` -/
+/-- the statement proved for `attachGo` (no hypothesis since the repair of `visit_tuple`) -/
 def GoInv (xs : List Item) : Prop :=
   ∀ (pend : List Pragma) (done : List Item) (last : Option Item),
-    owGo T post xs (!pend.isEmpty) (lastInfo T last) = false →
-    strayGo T post xs (!pend.isEmpty) (lastInfo T last) = false →
     detachList T post (attachGo T post xs pend done last) =
       detachList T post done ++ detachList T post last.toList ++ pend.map .pragma ++ detachList T post xs
 
 theorem goInv_nil : GoInv T post [] := by
-  intro pend done last h1 h2
+  intro pend done last
   cases last with
   | none => simp [attachGo, detachList, detachList_append, detachList_pragmas]
   | some l =>
     simp only [attachGo]
-    by_cases hc : (post && !pend.isEmpty && l.qual T) = true
+    by_cases hc : (post && !pend.isEmpty && l.qual T && (lastOf T l).hp) = true
     · simp only [hc, if_true]
-      simp only [Bool.and_eq_true, Bool.not_eq_true', ] at hc
-      obtain ⟨⟨hp, hne⟩, hq⟩ := hc
+      simp only [Bool.and_eq_true, Bool.not_eq_true'] at hc
+      obtain ⟨⟨⟨hp, hne⟩, hq⟩, hhp⟩ := hc
       subst hp
-      have hl : lastOf T l = ⟨true, true, false⟩ := by
-        apply last_eta
-        · rw [lastOf_q]; exact hq
-        · simpa [strayGo, lastInfo, hne, lastOf_q, hq] using h2
-        · simpa [owGo, lastInfo, hne, lastOf_q, hq] using h1
-      simp [detachList_append, detachList, detachItem_setPost T l pend hl hne]
+      simp [detachList_append, detachList,
+        detachItem_appendPost T l pend (by rw [lastOf_q]; exact hq) hhp hne]
     · simp only [hc]
       simp [detachList_append, detachList, detachList_pragmas]
 
 theorem goInv_pragma (p : Pragma) (xs : List Item) (ih : GoInv T post xs) : GoInv T post (.pragma p :: xs) := by
-  intro pend done last h1 h2
-  have e : (!(pend ++ [p]).isEmpty) = true := by cases pend <;> simp
-  have h := ih (pend ++ [p]) done last (by rw [e]; simpa [owGo] using h1) (by rw [e]; simpa [strayGo] using h2)
+  intro pend done last
+  have h := ih (pend ++ [p]) done last
   simp [attachGo, h, detachList, detachItem]
 
 theorem goInv_cons (x : Item) (xs : List Item) (hx : ∀ p, x = .pragma p → False)
-    (ihx : owItem T post x = false → strayItem T post x = false →
-      detachItem T post (attachItem T post x) = detachItem T post x)
+    (ex : detachItem T post (attachItem T post x) = detachItem T post x)
     (ih : GoInv T post xs) : GoInv T post (x :: xs) := by
-  intro pend done last h1 h2
-  rw [owGo.eq_3 _ _ _ _ _ _ hx] at h1
-  rw [strayGo.eq_3 _ _ _ _ _ _ hx] at h2
-  simp only [Bool.or_eq_false_iff] at h1 h2
-  obtain ⟨h1x, h1r⟩ := h1
-  obtain ⟨h2x, h2r⟩ := h2
-  have ex := ihx h1x h2x
+  intro pend done last
   rw [attachGo.eq_4 _ _ _ _ _ _ _ hx]
   by_cases hpe : pend.isEmpty = true
   · have : pend = [] := by simpa using hpe
     subst this
-    simp only [List.isEmpty_nil, if_true, Bool.not_true, Bool.not_false] at h1r ⊢
-    have h := ih [] (done ++ last.toList) (some (attachItem T post x))
-      (by simpa [lastInfo, lastOf_attachItem] using h1r) (by simpa [lastInfo, lastOf_attachItem] using h2r)
-    rw [h]
+    simp only [List.isEmpty_nil, if_true]
+    rw [ih]
     simp [detachList_append, detachList, ex]
   · have hpe' : pend.isEmpty = false := by simpa using hpe
-    simp only [hpe', Bool.not_false, Bool.not_true, if_false, Bool.false_eq_true] at h1r ⊢
+    simp only [hpe', if_false, Bool.false_eq_true]
     rw [qual_attachItem]
     by_cases hq : x.qual T = true
-    · simp only [hq, if_true, Bool.or_eq_false_iff] at h1r ⊢
-      have h := ih [] (done ++ last.toList) (some ((attachItem T post x).setPre pend))
-        (by simpa [lastInfo, lastOf_attachItem, lastOf_setPre] using h1r.2)
-        (by simpa [lastInfo, lastOf_attachItem, lastOf_setPre] using h2r)
-      rw [h]
-      have := detachItem_setPre T post (attachItem T post x) pend (by rw [qual_attachItem]; exact hq)
-        (by rw [preNE_attachItem]; exact h1r.1) hpe'
+    · simp only [hq, if_true]
+      rw [ih]
+      have := detachItem_prependPre T post (attachItem T post x) pend (by rw [qual_attachItem]; exact hq) hpe'
       simp [detachList_append, detachList, this, ex]
-    · simp only [hq, if_false, Bool.false_eq_true] at h1r ⊢
+    · simp only [hq, if_false, Bool.false_eq_true]
       by_cases hc : (post && (lastInfo T last).q && (lastInfo T last).hp) = true
-      · simp only [hc, if_true, Bool.or_eq_false_iff] at h1r ⊢
+      · simp only [hc, if_true]
         simp only [Bool.and_eq_true] at hc
         obtain ⟨⟨hp, hlq⟩, hlhp⟩ := hc
         subst hp
         cases last with
         | none => simp [lastInfo, Last.none] at hlq
         | some l =>
-          have hl : lastOf T l = ⟨true, true, false⟩ := last_eta _ _ _ _ hlq hlhp h1r.1
-          have h := ih [] (done ++ [l.setPost pend]) (some (attachItem T true x))
-            (by simpa [lastInfo, lastOf_attachItem] using h1r.2) (by simpa [lastInfo, lastOf_attachItem] using h2r)
           simp only [Option.map_some, Option.toList_some]
-          rw [h]
-          simp [detachList_append, detachList, detachItem_setPost T l pend hl hpe', ex]
-      · simp only [hc, if_false, Bool.false_eq_true] at h1r ⊢
-        have h := ih [] (done ++ last.toList ++ pend.map .pragma) (some (attachItem T post x))
-          (by simpa [lastInfo, lastOf_attachItem] using h1r) (by simpa [lastInfo, lastOf_attachItem] using h2r)
-        rw [h]
+          rw [ih]
+          simp [detachList_append, detachList, detachItem_appendPost T l pend hlq hlhp hpe', ex]
+      · simp only [hc, if_false, Bool.false_eq_true]
+        rw [ih]
         simp [detachList_append, detachList, detachList_pragmas, ex]
 
-
 mutual
-theorem attachItem_D : ∀ (i : Item), owItem T post i = false → strayItem T post i = false →
-    detachItem T post (attachItem T post i) = detachItem T post i
-  | .pragma p, _, _ => by simp [attachItem]
-  | .node id k hp df pre po body, h1, h2 => by
-      have h := goInv_all body [] [] none (by simpa [owItem, lastInfo] using h1) (by simpa [strayItem, lastInfo] using h2)
+theorem attachItem_D : ∀ (i : Item), detachItem T post (attachItem T post i) = detachItem T post i
+  | .pragma p => by simp [attachItem]
+  | .node id k hp df pre po body => by
+      have h := goInv_all body [] [] none
       simp [detachList] at h
       simp [attachItem, detachItem, h]
-  | .region df s e body, h1, h2 => by
-      have h := goInv_all body [] [] none (by simpa [owItem, lastInfo] using h1) (by simpa [strayItem, lastInfo] using h2)
+  | .region df s e body => by
+      have h := goInv_all body [] [] none
       simp [detachList] at h
       simp [attachItem, detachItem, h]
 theorem goInv_all : ∀ (xs : List Item), GoInv T post xs
@@ -180,13 +143,10 @@ theorem goInv_all : ∀ (xs : List Item), GoInv T post xs
       goInv_cons T post _ xs (by intro p h; cases h) (attachItem_D (.region df s e body)) (goInv_all xs)
 end
 
-/-- tuple level: if `attach` overwrites no slot and creates no stray attribute, detaching afterwards gives what
-detaching the input gives -/
-theorem detach_attachList (xs : List Item) (h1 : KnownOverwrite T post xs = false)
-    (h2 : KnownStrayPost T post xs = false) :
+/-- tuple level: detaching after attaching gives what detaching the input gives -/
+theorem detach_attachList (xs : List Item) :
     detachList T post (attachList T post xs) = detachList T post xs := by
-  have h := goInv_all T post xs [] [] none (by simpa [lastInfo, KnownOverwrite] using h1)
-    (by simpa [lastInfo, KnownStrayPost] using h2)
+  have h := goInv_all T post xs [] [] none
   simpa [attachList, detachList] using h
 
 mutual
@@ -205,35 +165,6 @@ theorem detachList_clean : ∀ (xs : List Item), cleanList xs = true → detachL
       simp [detachList, detachItem_clean x h.1, detachList_clean xs h.2]
 end
 
-mutual
-theorem owItem_clean : ∀ (i : Item), cleanItem i = true → owItem T post i = false
-  | .pragma p, _ => by simp [owItem]
-  | .node id k hp df pre po body, h => by
-      simp only [cleanItem, Bool.and_eq_true] at h
-      simpa [owItem] using owGo_clean body false Last.none h.2 rfl
-  | .region df s e body, h => by simp [cleanItem] at h
-theorem owGo_clean : ∀ (xs : List Item) (pne : Bool) (l : Last), cleanList xs = true → l.pne = false →
-    owGo T post xs pne l = false
-  | [], pne, l, _, hl => by simp [owGo, hl]
-  | .pragma p :: xs, pne, l, h, hl => by
-      simp only [cleanList, Bool.and_eq_true] at h
-      simpa [owGo] using owGo_clean xs true l h.2 hl
-  | .node id k hp df pre po body :: xs, pne, l, h, hl => by
-      simp only [cleanList, Bool.and_eq_true] at h
-      have hx := owItem_clean _ h.1
-      have hc := h.1
-      simp only [cleanItem, Bool.and_eq_true, List.isEmpty_iff] at hc
-      have hr := owGo_clean xs false (lastOf T (.node id k hp df pre po body)) h.2 (by simp [lastOf, hc.1.2])
-      obtain ⟨⟨hpre, hpo⟩, _⟩ := hc
-      subst hpre; subst hpo
-      rw [owGo.eq_3 _ _ _ _ _ _ (by intro p h; cases h)]
-      simp [hx, hr, hl, Item.preNE]
-  | .region df s e body :: xs, pne, l, h, hl => by simp [cleanList, cleanItem] at h
-end
-
-theorem knownOverwrite_clean (xs : List Item) (h : cleanList xs = true) : KnownOverwrite T post xs = false :=
-  owGo_clean T post xs false Last.none h rfl
-
 /-! ## identities of non-pragma nodes -/
 
 theorem nodeIdsList_append (a b : List Item) : nodeIdsList (a ++ b) = nodeIdsList a ++ nodeIdsList b := by
@@ -246,15 +177,15 @@ theorem nodeIdsList_pragmas (ps : List Pragma) : nodeIdsList (ps.map .pragma) = 
   | nil => simp [nodeIdsList]
   | cons p ps ih => simp [nodeIdsList, nodeIdsItem, ih]
 
-theorem nodeIds_setPre (ps : List Pragma) (i : Item) : nodeIdsItem (i.setPre ps) = nodeIdsItem i := by
-  cases i <;> simp [Item.setPre, nodeIdsItem]
+theorem nodeIds_prependPre (ps : List Pragma) (i : Item) : nodeIdsItem (i.prependPre ps) = nodeIdsItem i := by
+  cases i <;> simp [Item.prependPre, nodeIdsItem]
 
-theorem nodeIds_setPost (ps : List Pragma) (i : Item) : nodeIdsItem (i.setPost ps) = nodeIdsItem i := by
-  cases i <;> simp [Item.setPost, nodeIdsItem]
+theorem nodeIds_appendPost (ps : List Pragma) (i : Item) : nodeIdsItem (i.appendPost ps) = nodeIdsItem i := by
+  cases i <;> simp [Item.appendPost, nodeIdsItem]
 
-theorem nodeIdsList_toList_map_setPost (ps : List Pragma) (o : Option Item) :
-    nodeIdsList (o.map (Item.setPost ps)).toList = nodeIdsList o.toList := by
-  cases o <;> simp [nodeIdsList, nodeIds_setPost]
+theorem nodeIdsList_toList_map_appendPost (ps : List Pragma) (o : Option Item) :
+    nodeIdsList (o.map (Item.appendPost ps)).toList = nodeIdsList o.toList := by
+  cases o <;> simp [nodeIdsList, nodeIds_appendPost]
 
 
 def IdInv (xs : List Item) : Prop :=
@@ -268,9 +199,9 @@ theorem idInv_cons (x : Item) (xs : List Item) (hx : ∀ p, x = .pragma p → Fa
   split
   · rw [ih]; simp [nodeIdsList_append, nodeIdsList, ihx]
   · split
-    · rw [ih]; simp [nodeIdsList_append, nodeIdsList, ihx, nodeIds_setPre]
+    · rw [ih]; simp [nodeIdsList_append, nodeIdsList, ihx, nodeIds_prependPre]
     · split
-      · rw [ih]; simp [nodeIdsList_append, nodeIdsList, ihx, nodeIdsList_toList_map_setPost]
+      · rw [ih]; simp [nodeIdsList_append, nodeIdsList, ihx, nodeIdsList_toList_map_appendPost]
       · rw [ih]; simp [nodeIdsList_append, nodeIdsList, ihx, nodeIdsList_pragmas]
 
 mutual
@@ -291,7 +222,7 @@ theorem idInv_all : ∀ (xs : List Item), IdInv T post xs
       | none => simp [attachGo, nodeIdsList_append, nodeIdsList_pragmas, nodeIdsList]
       | some l =>
         simp only [attachGo]
-        split <;> simp [nodeIdsList_append, nodeIdsList_pragmas, nodeIdsList, nodeIds_setPost]
+        split <;> simp [nodeIdsList_append, nodeIdsList_pragmas, nodeIdsList, nodeIds_appendPost]
   | .pragma p :: xs => by
       intro pend done last
       simp [attachGo, idInv_all xs _ _ _, nodeIdsList, nodeIdsItem]
